@@ -801,6 +801,11 @@ func evalBinaryBoolExpr(op parser.Operator, left, right *boolVal) (value, error)
 	return nil, fmt.Errorf("%w (bool): %v", ErrOperation, op.String())
 }
 
+// maxRepeatedLen is the largest array that array repetition creates. A
+// larger product of length and count is reported as a bad repetition
+// count instead of overflowing or exhausting the host's memory.
+const maxRepeatedLen = 1 << 26
+
 func evalBinaryArrayExpr(op parser.Operator, left *arrayVal, right value) (value, error) {
 	switch op {
 	case parser.OP_PLUS:
@@ -818,7 +823,13 @@ func evalBinaryArrayExpr(op parser.Operator, left *arrayVal, right value) (value
 		if repetitions < 0 {
 			return nil, fmt.Errorf("%w: negative count: %s", ErrBadRepetition, right)
 		}
-		newElements := make([]value, 0, len(*left.Elements)*repetitions)
+		n := len(*left.Elements)
+		if n == 0 {
+			repetitions = 0 // nothing to repeat, however often
+		} else if repetitions > maxRepeatedLen/n {
+			return nil, fmt.Errorf("%w: result too large: %s", ErrBadRepetition, right)
+		}
+		newElements := make([]value, 0, n*repetitions)
 		for range repetitions {
 			newElements = append(newElements, *(deepCopy(left).(*arrayVal).Elements)...)
 		}
